@@ -131,6 +131,9 @@ var c14Patches = []string{
 	"@@\nvar x expression\n@@\n-pair(x, x)\n+single(x)\n\n@@\nvar y expression\n@@\n-single(y)\n+one(y)\n",
 	"@@\nvar N identifier\n@@\n type N struct {\n   ...\n-  TgtField string\n+  NewField string\n   ...\n }\n",
 	"@@\nvar t identifier\nvar T expression\n@@\n func (t *T) String() string {\n+  if t == nil {\n+    return \"<nil>\"\n+  }\n   ...\n }\n",
+	// a change that cannot be carried out for some files (the captured expression has to stand where only a name can) and
+	// replaces code that spans several commented lines in others: what the failing file leaves behind must not reach the next
+	"@@\nvar x expression\n@@\n-getField(x)\n+cfg.x\n",
 }
 
 func c14Files(g *gen.G, pi int) []string {
@@ -160,6 +163,12 @@ func c14Files(g *gen.G, pi int) []string {
 				plants = append(plants, gen.Plant{Kind: "decl", Text: fmt.Sprintf("type St%d_%d struct {\n\tA int\n\tTgtField string\n\tB bool\n}", f, i)})
 			case 8:
 				plants = append(plants, gen.Plant{Kind: "decl", Text: fmt.Sprintf("func (r *Rc%d_%d) String() string {\n\treturn r.s\n}", f, i)})
+			case 9:
+				if f%2 == 0 {
+					plants = append(plants, gen.Plant{Kind: "stmts", Text: "_ = getField(opts.name)"}) // cannot be updated
+				} else {
+					plants = append(plants, gen.Plant{Kind: "stmts", Text: fmt.Sprintf("_ = getField( // the old getter\n\tname%d, // which one\n)\nafter()", i)})
+				}
 			}
 		}
 		imports := ""
